@@ -10,7 +10,7 @@ SPEC = {
     "rule": "case = one twin pair whose tx was included; distinct_nontrivial = distinct (tx type, target relation, sender status) triples",
     "jobs": [Job("chain", "verifsim", "^TestVerifC05$", shards=(8, 16), timeout=(900, 3600))],
     "floors": {"relation:own-invitee": 3, "relation:own-delegator": 2, "relation:contract": 10, "relation:god": 10, "relation:undefined": 20,
-               "relation:self": 2, "relation:identity": 20, "twin_type:KillInvitee": 2, "twin_type:KillDelegator": 2, "twin_type:Call": 5, "relation:pending-delegator-of-signer": 2},
+               "relation:self": 2, "relation:identity": 20, "twin_type:KillInvitee": 2, "twin_type:KillDelegator": 2, "twin_type:Call": 5, "attempted_relation:pending-delegator-of-signer": 30, "attempted_relation:foreign-delegator": 5, "attempted_relation:foreign-invitee": 5},
     "parallel": 16,
     "assumptions": ["consensus config V12"],
 }
